@@ -228,6 +228,11 @@ def C13(run):
                                    'Gen.g* = C12.g*Prog (Guarded) and Gen.* = C12.*Prog (Fixed) by rfl; guarded_*_is_program, fixed_*_is_program',
                                    'the arithmetic methods of droop/values/guarded.py / fixed.py, executed symbolically, no longer return the '
                                    'expressions lean/Props/C12Prog.lean proves the model to compute')
+        broken = broken + gen_gate(run, 'translator_cmp', 'gen_cmp', 'programs',
+                                   'Gen.cmpProg = C13.cmpProg, Gen.guardedOps = C13.guardedOps, Gen.fixedOps = C13.fixedOps by rfl; cmp_is_program, '
+                                   'guarded_ops_are_cmp, fixed_ops_are_int (lean/Props/C13Prog.lean)',
+                                   'Guarded.__cmp__ (executed symbolically) or the rich comparisons of Guarded / Fixed are no longer the program and '
+                                   'tables lean/Props/C13Prog.lean proves equal to the model')
     rng = rng_for(run)
     items = gen_ops(rng, budget(run, 40000, 500000), ['guarded'])
     items += grid_ops(['guarded'], R=budget(run, 4, 8))
